@@ -40,6 +40,7 @@ Exemptions (counted as ``trivial:<reason>``, never reported) - inherent ambiguit
     needs characters a cookie cannot carry; multipart bodies beyond their Content-Type (the property does not state a
     round-trip law for them);
   * a null path value under label/matrix (RFC 6570 expands an undefined variable to the empty string);
+  * a raw ';' in the last path segment on the ASGI test client (it cuts ";params" off: third-party environment);
   * non-ASCII header bytes on the ASGI test client (it encodes UTF-8 where HTTP says latin-1: third-party environment).
   * cases whose ``call()`` raises before anything is sent (nothing on the wire to judge) - counted as ``not_sent``.
 """
@@ -501,6 +502,8 @@ class WsgiRecorder:
             headers.append(("Content-Length", environ["CONTENT_LENGTH"]))
         raw_uri = environ.get("REQUEST_URI") or environ.get("RAW_URI") or ""
         raw_path, _, _ = raw_uri.partition("?")
+        # WSGI strings are bytes decoded as latin-1: spell the non-ASCII bytes of the request target as %XX again
+        raw_path = "".join(ch if ord(ch) < 0x80 else "%{:02X}".format(ord(ch)) for ch in raw_path)
         self.records.append(Wire("wsgi", environ["REQUEST_METHOD"], "http://" + environ.get("HTTP_HOST", ""), raw_path,
                                  environ.get("QUERY_STRING", ""), "", headers, body))
         start_response("200 OK", [("Content-Type", "application/json")])
@@ -878,6 +881,9 @@ def judge(res: Result, item: dict, expect: Expect, case: Any, captured: dict, wi
             reason = "value_a_cookie_cannot_carry"
         if reason is None and expected is None and p.location == "path" and p.style in ("label", "matrix"):
             reason = "null_is_an_undefined_variable_in_rfc6570"  # {.p} / {;p} of an undefined variable expand to nothing
+        if reason is None and wire.transport == "asgi" and p.location == "path" and ";" not in wire.raw_path and \
+                "%3b" not in wire.raw_path.lower() and any(";" in x for x in common.all_strings(expected)):
+            reason = "asgi_test_client_drops_path_params"  # it splits ";params" off the last segment (urlparse): environment
         if reason is None and p.location == "formData" and any(s is None for s in common_leaves(expected)):
             reason = "null_in_urlencoded_form"
         if reason is None and wire.transport == "asgi" and p.location == "header" and wire.header(p.name) is None and \
